@@ -422,12 +422,17 @@ class Gen:
         return self.ref_or(path, lambda x: x.kind == "subst", 0.3, make)
 
     def taxa(self, path, n, dated):
+        """dated: the holder needs sampling dates (time trees); otherwise half of the lists hold taxa
+        without attributes (what UnRootedTreeModel.json_factory emits): such objects are empty
+        containers, like a Taxa with no taxon, and must be ordinary citizens of the id language"""
+
         def make():
+            dd = dated or self.chance(0.5)
             id_ = self.fresh()
             lst = []
             names = []
             dates = [0.0] + [self.d(st.sampled_from([0.0, 0.5, 1.0, 2.0])) for _ in range(n - 1)]
-            if dated and n == 3 and self.chance(0.2):
+            if dd and n == 3 and self.chance(0.2):
                 # a plate of taxa t0, t1, t2 (all sampled at time 0)
                 rng, idx = "0:3", [0, 1, 2]
                 stem = self.fresh(True)
@@ -444,23 +449,35 @@ class Gen:
                     p = path + ["taxa", j]
 
                     def mk(p=p, j=j):
-                        t = {"id": self.fresh(True), "type": self.typename("Taxon"), "attributes": {"date": dates[j]}}
-                        return self.done(t, "taxon", p, date=dates[j])
+                        return self.new_taxon(p, dates[j] if dd else None)
 
-                    v = self.ref_or(p, lambda x: x.kind == "taxon" and x.id not in names and hasattr(x, "date"), 0.2, mk)
+                    v = self.ref_or(p, lambda x: x.kind == "taxon" and x.id not in names and (hasattr(x, "date") or not dd), 0.2, mk)
                     names.append(v if isinstance(v, str) else v["id"])
                     lst.append(v)
             o = {"id": id_, "type": self.typename("Taxa"), "taxa": lst}
-            return self.done(o, "taxa", path, n=n, names=names)
+            return self.done(o, "taxa", path, n=n, names=names, dated=dd)
 
-        return self.ref_or(path, lambda x: x.kind == "taxa" and x.n == n, 0.5, make)
+        return self.ref_or(path, lambda x: x.kind == "taxa" and x.n == n and (x.dated or not dated), 0.5, make)
+
+    def new_taxon(self, path, date):
+        t = {"id": self.fresh(True), "type": self.typename("Taxon")}
+        if date is not None:
+            t["attributes"] = {"date": date}
+            return self.done(t, "taxon", path, date=date)
+        if self.chance(0.3):
+            t["attributes"] = {}
+        return self.done(t, "taxon", path)
+
+    def empty_taxa(self, path):
+        o = {"id": self.fresh(), "type": self.typename("Taxa"), "taxa": []}
+        return self.done(o, "taxa", path, n=0, names=[], dated=False)
 
     def tree(self, path, timed=None):
         def make():
             t = self.chance(0.6) if timed is None else timed
             n = self.d(st.integers(3, 4))
             o = {"id": self.fresh(), "type": self.typename("TimeTreeModel" if t else "UnRootedTreeModel")}
-            tx = self.taxa(path + ["taxa"], n, True)
+            tx = self.taxa(path + ["taxa"], n, t)
             names = tx["taxa"] if isinstance(tx, dict) else None
             node = [x for x in self.nodes if x.id == (tx if isinstance(tx, str) else tx["id"])][0]
             nm = node.names
@@ -530,6 +547,12 @@ class Gen:
             return self.clock(path)
         if kind == "ctmc":
             return self.ctmc(path)
+        if kind == "taxon":
+            return self.new_taxon(path, None if self.chance(0.7) else 0.0)
+        if kind == "taxa":
+            return self.taxa(path, self.d(st.integers(1, 4)), False)
+        if kind == "taxa0":
+            return self.empty_taxa(path)
         raise ValueError(kind)
 
     def new_leaf(self, path, dom, n):
@@ -551,7 +574,7 @@ class Gen:
         o["file_name"] = "log-%d.csv" % self.nlog
         return self.done(o, "logger", path)
 
-    KINDS = ["leaf"] * 4 + ["vec"] * 2 + ["dist"] * 4 + ["joint"] * 3 + ["site", "subst", "tree", "clock", "ctmc"]
+    KINDS = ["leaf"] * 4 + ["vec"] * 2 + ["dist"] * 4 + ["joint"] * 3 + ["site", "subst", "tree", "clock", "ctmc"] + ["taxon", "taxa", "taxa0", "tree"]
 
     def program(self):
         ntop = self.d(st.integers(2, self.max_top))
@@ -586,8 +609,14 @@ class Gen:
 # --------------------------------------------------------------------------- faults
 FAULTS = [
     "dup_sibling", "dup_ancestor", "dup_ancestor", "dup_distant", "dup_toplevel", "dangling", "forward", "enclosing",
-    "missing_id", "missing_type", "unknown_type", "not_object", "plate_not_in_list", "plate_dup",
+    "missing_id", "missing_type", "unknown_type", "not_object", "plate_not_in_list", "plate_dup", "dup_empty", "dup_empty",
 ]
+
+
+def _empty_container(o):
+    """definitions whose object is an empty container (a taxon without attributes, a Taxa without taxa)"""
+    t = str(o.get("type", "")).split(".")[-1]
+    return (t == "Taxon" and not o.get("attributes")) or (t == "Taxa" and o.get("taxa") == [])
 
 
 def _is_prefix(a, b):
@@ -628,6 +657,33 @@ def inject(g, spec, kind):
     def extra_param(id_):
         return {"id": id_, "type": "Parameter", "tensor": [0.5]}
 
+    if kind == "dup_empty":
+        # the id of an (attribute-less taxon / empty Taxa) is defined a second time: at top level, inside
+        # another list, inside its own definition, as a sibling; by the same or by another class
+        form = d(st.integers(0, 5))
+        if form == 3:
+            x = g.fresh(True)
+            spec.append({"id": x, "type": "Taxa", "taxa": [{"id": x, "type": "Taxon"}, {"id": g.fresh(True), "type": "Taxon"}]})
+            return kind
+        if form == 4:
+            x = g.fresh(True)
+            spec.append({"id": g.fresh(), "type": "Taxa", "taxa": [{"id": x, "type": "Taxon"}, {"id": x, "type": d(st.sampled_from(["Taxon", "torchtree.evolution.taxa.Taxon"]))}]})
+            return kind
+        empties = [x for x in defs if _empty_container(jget(spec, x["path"]))]
+        if empties:
+            aid = d(st.sampled_from(empties))["id"]
+        else:
+            aid = g.fresh(True)
+            spec.append(d(st.sampled_from([{"id": aid, "type": "Taxon"}, {"id": aid, "type": "Taxa", "taxa": []}, {"id": aid, "type": "Taxon", "attributes": {}}])))
+        if form == 0:
+            spec.append({"id": aid, "type": "Taxon"})
+        elif form == 1:
+            spec.append({"id": g.fresh(), "type": "Taxa", "taxa": [{"id": g.fresh(True), "type": "Taxon"}, {"id": aid, "type": "Taxon", "attributes": {}}]})
+        elif form == 2:
+            spec.append(extra_param(aid))
+        else:
+            spec.append({"id": g.fresh(), "type": "ViewParameter", "indices": "0:1", "parameter": extra_param(aid)})
+        return kind
     if kind == "dup_sibling":
         ps = any_pairs(lambda p, q: p[:-1] == q[:-1] and isinstance(p[-1], int) and p[-1] < q[-1])
         if ps:
